@@ -440,7 +440,7 @@ namespace
 				extTypeInfo.DataOffset = 1 + metaInfo.DataSize + metaInfo.ExtSize;
 				if (pos + extTypeInfo.DataOffset <= inputData.size())
 				{
-					extTypeInfo.ExtTypeCode = inputData[pos + 1 + metaInfo.DataSize];
+					extTypeInfo.ExtTypeCode = inputData[pos + 1 + metaInfo.ExtSize];
 					// Currently only timestamp is specified as extension type
 					if (extTypeInfo.ExtTypeCode == '\xFF') {
 						extTypeInfo.ValueType = ValueType::Timestamp;
